@@ -17,7 +17,7 @@ func init() { register("C13", c13) }
 func c13(c *core.Check) {
 	c.Explain = "Thin: structural necessary conditions of a consistent table grid, decided on the SSA form and the syntax tree: (R1) a cell spans at least one column and a non-negative number of rows; (R2) the slot assignment of wrapTable gives each cell the first column not occupied by a row-spanning cell, advances the cursor by the cell's colspan, clamps rowspan to the rows left in the group (0 meaning all of them) and marks exactly the columns of the cell as occupied in the spanned rows — so two cells never receive the same slot; (R3) the side-mirrored assignments, the box-edge sums and the named arguments of the table layout code are consistent. Column width distribution, row heights, border-spacing arithmetic and the equalities between cell edges are numerical relations between runtime values and are not decided. Also decided: (R4) border-spacing is read only in the separated-borders model; (R5) the spacing term of a spanning cell counts the columns actually spanned; (R6) a row's bottom edge is computed from its final height."
 	_ = c.Prog
-	r1 := c.Rule("R1", "NewTableCellBox reads colspan within [1, 1000] and rowspan within [0, 65534] (HTML)", 4)
+	r1 := c.Rule("R1", "NewTableCellBox reads colspan within [1, 1000] and rowspan within [0, 65534] (HTML)", 5)
 	spanBounds(c, r1)
 
 	r2 := c.Rule("R2", "wrapTable's slot assignment: GridX is the cursor after skipping the columns occupied in this row; the cursor then advances by Colspan; Rowspan is clamped to the rows left in the group (all of them for 0); the columns marked as occupied in the spanned rows are those from GridX to GridX+Colspan", 5)
@@ -29,7 +29,7 @@ func c13(c *core.Check) {
 	c13CellX(c)
 	c13MinWidth(c)
 
-	r3 := c.Rule("R3", "the table layout code mirrors its side-symmetric assignments, sums margins, paddings and borders with consistent sides, and passes its named arguments in order", 6)
+	r3 := c.Rule("R3", "the table layout code mirrors its side-symmetric assignments, sums margins, paddings and borders with consistent sides, and passes its named arguments in order", 8)
 	tfiles := map[string]bool{"tables.go": true}
 	sideSymmetryRule(c, r3, "html/layout", tfiles, 0)
 	sideSumRule(c, r3, "html/layout", tfiles, 1)
@@ -447,7 +447,7 @@ func instrDominates(a, b ssa.Instruction) bool {
 // c13RowBottom: the bottom edge of a row is computed from its final height.
 func c13RowBottom(c *core.Check) {
 	p := c.Prog
-	r := c.Rule("R6", "cells of a row share the row's height: where tableLayout computes the bottom edge of a row as PositionY + Height, the height read is the final one — no assignment of that row's Height can follow the read within the same iteration (cells are padded down to this edge)", 1)
+	r := c.Rule("R6", "cells of a row share the row's height: where tableLayout computes the bottom edge of a row as PositionY + Height, the height read is the final one — no assignment of that row's Height can follow the read within the same iteration (cells are padded down to this edge)", 2)
 	n := 0
 	for _, fn := range p.FuncsOfPkg("html/layout") {
 		root := fn
@@ -524,7 +524,7 @@ func c13RowBottom(c *core.Check) {
 // c13CellX: where a cell starts, and how an excess width is shared.
 func c13CellX(c *core.Check) {
 	p := c.Prog
-	r := c.Rule("R7", "cells start on their columns and shares add up: in tableLayout a cell's PositionX is the position of column GridX in a left-to-right table and of column GridX + Colspan − 1 in a right-to-left one, read from ColumnPositions without further arithmetic (the positions already contain the spacing); and where an excess width is divided by the number of columns of a list, the quotient is added to every column of that list (one per iteration, unconditionally)", 3)
+	r := c.Rule("R7", "cells start on their columns and shares add up: in tableLayout a cell's PositionX is the position of column GridX in a left-to-right table and of column GridX + Colspan − 1 in a right-to-left one, read from ColumnPositions without further arithmetic (the positions already contain the spacing); and where an excess width is divided by the number of columns of a list, the quotient is added to every column of that list (one per iteration, unconditionally)", 5)
 	leaf := func(v ssa.Value) string {
 		if ld, ok := v.(*ssa.UnOp); ok {
 			if fa, ok := ld.X.(*ssa.FieldAddr); ok {
